@@ -29,7 +29,8 @@ def run(ctx):
     if not (ok and ok2):
         return
     known = hd.known_kinds_for("C17")
-    combos = list(itertools.product([False, True], repeat=6))    # brp, check, parallel, errors, unsupported, modifiable
+    combos = [c + (linked,) for c in itertools.product([False, True], repeat=6) for linked in ((False, True) if c[5] else (False,))]
+    # brp, check, parallel, errors, unsupported, modifiable, modifiable files are hard-linked (rewritten in place instead of replaced)
     cases = []
     t = fh.Tree()
     fails, mism = [], []
@@ -37,7 +38,7 @@ def run(ctx):
     try:
         vlines = []
         results = []
-        for i, (brp, check, par, has_err, has_uns, has_mod) in enumerate(combos):
+        for i, (brp, check, par, has_err, has_uns, has_mod, linked) in enumerate(combos):
             # engineered tree
             for f in os.listdir(t.path("")) if os.path.isdir(t.path("")) else []:
                 pass
@@ -52,6 +53,9 @@ def run(ctx):
             if has_mod:
                 t.add_file(sub + "/dirty.gz", fc.gz(1700000000))
                 t.add_file(sub + "/dirty.a", fc.ar([("x.o/", 1700000000, 7, 8, 100644, b"abc")]))
+                if linked:
+                    t.link(sub + "/dirty.gz", sub + "/dirty-link.gz")
+                    t.link(sub + "/dirty.a", sub + "/dirty-link.a")
             args = []
             env = {}
             if brp:
@@ -64,7 +68,7 @@ def run(ctx):
             args.append(t.path(sub))
             rc, out = fh.run_cli(args, epoch=samples.EPOCH, env_extra=env, timeout=60)
             s = fh.parse_summary(out)
-            label = "%s%s%s errors=%d unsupported=%d modifiable=%d" % ("--brp " if brp else "", "--check " if check else "", "-j2 " if par else "", has_err, has_uns, has_mod)
+            label = "%s%s%s errors=%d unsupported=%d modifiable=%d%s" % ("--brp " if brp else "", "--check " if check else "", "-j2 " if par else "", has_err, has_uns, has_mod, " (hard-linked)" if linked else "")
             if s is None:
                 fails.append(("no-summary", "%s: no summary (exit %d): %s" % (label, rc, out[-200:]), label))
                 continue
@@ -75,6 +79,10 @@ def run(ctx):
             want = contract(check, brp, s["errors"], s["unsupported"], s["modified"])
             if (rc != 0) != want:
                 fails.append(("exit-contract", "%s: summary %s, exit status %d, documented contract says %s" % (label, s, rc, "fail" if want else "succeed"), label))
+            want_truth = contract(check, brp, has_err, has_uns, has_mod)          # judged on what the tree contains, not on what was reported
+            if (rc != 0) != want_truth:
+                fails.append(("exit-vs-tree", "%s: exit status %d (summary %s), but the tree %s and the documented contract says %s" % (
+                    label, rc, s, "holds: " + ", ".join(n for n, b in (("a failing file", has_err), ("an unsupported file", has_uns), ("modifiable files", has_mod)) if b) or "is clean", "fail" if want_truth else "succeed"), label))
             if rc not in (0, 1):
                 fails.append(("exit-abnormal", "%s: abnormal exit status %d" % (label, rc), label))
             vlines.append("V v%d %d %d %d %d %d %d" % (i, check, brp, s["errors"], s["unsupported"], s["replaced"], s["rewritten"]))
@@ -90,7 +98,7 @@ def run(ctx):
                 mism.append((label, "model verdict %s vs exit status %d" % (mv.get("v%d" % i), rc)))
     finally:
         t.remove()
-    ctx.oblige("correspondence[verdict]: exit status of %d runs = model (Gen.main_verdict on the reported counters); engineered trees realise all 64 combinations" % len(combos),
+    ctx.oblige("correspondence[verdict]: exit status of %d runs = model (Gen.main_verdict on the reported counters); engineered trees realise all combinations" % len(combos),
                not mism, "; ".join("%s: %s" % x for x in mism[:4]))
     seen = set()
     for kind, msg, label in fails:
@@ -103,11 +111,11 @@ def run(ctx):
             continue
         seen.add(kind)
         d = write_replay(ctx, kind, {}, {"failure": msg, "kind": kind, "case": label,
-                                         "how_to_replay": "tree with clean.gz clean.a [+ short.gz (3 bytes 1f8b08) for an error] [+ notgz.gz for unsupported] [+ dirty.gz dirty.a]; run with the stated flags"})
+                                         "how_to_replay": "tree with clean.gz clean.a [+ short.gz (3 bytes 1f8b08) for an error] [+ notgz.gz for unsupported] [+ dirty.gz dirty.a (gzip MTIME / ar mtime 1700000000, epoch 1577836800) [each with a second hard link]]; run with the stated flags"})
         ctx.violations.append({"replay": d, "kind": kind, "msg": msg})
     ctx.coverage.update({
         "evaluations": len(combos), "distinct_nontrivial": len(combos) - 8,
-        "rule": "all 64 combinations {plain,--brp} x {--check or not} x {serial,-j2} x {errors present} x {unsupported present} x {modifiable present}, each realised by an engineered tree "
+        "rule": "all 64 combinations {plain,--brp} x {--check or not} x {serial,-j2} x {errors present} x {unsupported present} x {modifiable present} (modifiable files single-link and hard-linked: 96 runs), each realised by an engineered tree "
                 "(checked against the reported counters); exit status compared with the documented contract and with the model's verdict; non-trivial = not the all-clean tree",
         "samples": samples_out, "exhaustive": True, "correspondence_mismatches": len(mism), "oracle_failures": len(fails),
     })
